@@ -412,7 +412,9 @@ func GenC16Session(seed uint64) *Scenario {
 			posCmd = strings.Replace(posCmd, "position startpos", "position fen "+rules.StartFen, 1)
 		}
 		okPos := emit(gapAfterResult(rng), posCmd)
+		rootKnown := okPos
 		if !okPos && rng.Chance(0.5) {
+			rootKnown = true
 			// recovery: a valid position so that the session can go on
 			// (otherwise the following go searches whatever position the
 			// engine holds after the damaged line, possibly one it accepted
@@ -423,7 +425,20 @@ func GenC16Session(seed uint64) *Scenario {
 		_ = root
 		var goLine string
 		selfLimit := true
-		switch rng.Intn(6) {
+		switch rng.Intn(7) {
+		case 6:
+			// a list of root moves, possibly naming a move twice
+			goLine = fmt.Sprintf("go depth %d", rng.Range(1, maxD))
+			if lm := root.LegalMoves(); len(lm) > 0 && rootKnown {
+				var ms []string
+				for k := rng.Range(1, 3); k > 0; k-- {
+					ms = append(ms, lm[rng.Intn(len(lm))].String())
+				}
+				if rng.Chance(0.4) {
+					ms = append(ms, ms[rng.Intn(len(ms))])
+				}
+				goLine += " searchmoves " + strings.Join(ms, " ")
+			}
 		case 0:
 			goLine = fmt.Sprintf("go depth %d", rng.Range(1, maxD))
 		case 1:
